@@ -97,9 +97,63 @@ def run(ctx):
     # D2
     g = RA.methods['copy']
     calls = [n for n, cal in ctx.E.callees(g) if cal is asragged and isinstance(n, ast.Call)]
-    if len(calls) != 1:
-        raise AnalysisError('RaggedArray.copy no longer delegates to asraggedarray exactly once')
-    c = calls[0]
+    if len(calls) == 1:
+        _ragged_copy_by_delegation(ctx, RA, g, asragged, calls[0])
+    elif not calls:
+        _ragged_copy_direct(ctx, RA, g)
+    else:
+        raise AnalysisError('RaggedArray.copy calls asraggedarray more than once')
+    # asraggedarray: first item consumed/validated before the first effect, StopIteration handled
+    nx = [n for n in own_nodes(asragged.node) if isinstance(n, ast.Call) and dotted(n.func) == 'next']
+    muts = [n for n, cal in ctx.E.callees(asragged) if isinstance(n, ast.Call) and any(e.kind in MUTATING for e in ctx.E.may(cal))]
+    ok = bool(nx) and all(must_precede(asragged, m, nx) for m in muts)
+    ctx.decide(ok, 'R-ORDER', 'D3', asragged, nx[0] if nx else None, 'first-item-before-first-effect',
+               'asraggedarray consumes and converts the first item before creating anything', detail='the directory is created before the first item is known to exist')
+    for n in nx:
+        guarded = len(n.args) > 1 or any(isinstance(p, ast.Try) and fld == 'body' and any('StopIteration' in norm(h.type) for h in p.handlers if h.type is not None)
+                                         for p, fld in enclosing(asragged.node, n))
+        ctx.decide(guarded, 'R-BELIEF', 'D3', asragged, n, 'next-guarded', 'an empty iterable does not leak StopIteration from asraggedarray',
+                   detail='unguarded next() on the caller\'s iterable')
+    # D4: same-path rejection before any effect
+    # path conditions: with the source an Array whose path equals the target path, no effect is reachable and
+    # ValueError is raised (any layout of the test: merged, nested, either polarity)
+    from ..pathcond import outcome_under
+    pth, src_ = asarray.params[0], asarray.params[1]
+    env = {f'isinstance({src_}, Array)': True, f'{pth} == {src_}.path': True, f'{src_}.path == {pth}': True,
+           f'{pth} == {src_}._path': True, f'{src_}._path == {pth}': True, f'{pth} != {src_}._path': False,
+           f'{src_}._path != {pth}': False,
+           f'{pth} != {src_}.path': False, f'{src_}.path != {pth}': False,
+           f'{pth}.samefile({src_}.path)': True, f'{src_}.path.samefile({pth})': True}
+    ft = _trunc.folder(env, asarray)
+    amuts = [n for n, cal in ctx.E.callees(asarray) if isinstance(n, ast.Call) and any(e.kind in MUTATING for e in ctx.E.may(cal))]
+    amuts += [e.node for e in ctx.E.primitives(asarray) if e.kind in MUTATING]
+    may = reach_under(asarray, ft)
+    ga = cfg_of(asarray)
+    normal, raised = outcome_under(asarray, ft)
+    ok = normal is False and 'ValueError' in raised and not any(ga.node_for(m) in may for m in amuts)
+    gates = []
+    ctx.decide(ok, 'R-DOM', 'D4', asarray, gates[0] if gates else None, 'same-path-rejected',
+               'asarray rejects path == source path (ValueError) before any effect', detail='a source could be overwritten by its own copy')
+    d6_archive_copy(ctx)           # D5
+    from .C13 import d2b_stale_metadata
+    d2b_stale_metadata(ctx, 'D4')   # a copy without metadata does not inherit the target path's old metadata.json
+    # the dtype imposed on later chunks keeps the byte order (shared with C01 D2)
+    dd = [v for v, st in defs_of(asarray.node, 'dtype')]
+    ok = any(isinstance(v, ast.Attribute) and v.attr == 'dtype' for v in dd) and \
+        not [v for v in dd if not isinstance(v, ast.Attribute) and ('.name' in norm(v) or 'np.dtype' in norm(v))]
+    ctx.decide(ok, 'R-FLOW', 'D1', asarray, None, 'imposed-dtype-keeps-byteorder',
+               'asarray imposes the first chunk\'s dtype object (byte order included) on all later chunks of a copy',
+               detail='dtype is rebuilt from the type name: multi-chunk copies of non-native byte order mix endianness')
+    for cls in (A, RA):
+        m = cls.methods.get('archive')
+        dd = ctx.repo.func('DataDir.archive')
+        calls = [n for n, cal in ctx.E.callees(m) if cal is dd and isinstance(n, ast.Call)] if m else []
+        ok = len(calls) == 1 and all(norm(get_arg(calls[0], None, k) or ast.Constant(0)) == k for k in ('filepath', 'compressiontype', 'overwrite'))
+        ctx.decide(ok, 'R-FLOW', 'D5', m or dd, calls[0] if calls else None, f'archive-forward::{cls.name}',
+                   f'{cls.name}.archive forwards filepath, compressiontype and overwrite to DataDir.archive', detail='arguments not forwarded')
+
+
+def _ragged_copy_by_delegation(ctx, RA, g, asragged, c):
     for nm in ('path', 'accessmode', 'overwrite'):
         a = get_arg(c, None, nm)
         ctx.decide(isinstance(a, ast.Name) and a.id == nm and not defs_of(g.node, nm), 'R-FLOW', 'D2', g, c, f'ragged-copy-forward::{nm}',
@@ -166,54 +220,55 @@ def run(ctx):
                     want = 'self.atom' if nm == 'atom' else canon(g, get_arg(c, None, nm))
                     ctx.decide(a is not None and canon(g, a) == want, 'R-FLOW', 'D3', g, n, f'empty-copy-forward::{nm}',
                                f'the empty copy receives {nm}={want}', detail=f'{nm}={norm(a) if a is not None else "<absent>"}')
-    # asraggedarray: first item consumed/validated before the first effect, StopIteration handled
-    nx = [n for n in own_nodes(asragged.node) if isinstance(n, ast.Call) and dotted(n.func) == 'next']
-    muts = [n for n, cal in ctx.E.callees(asragged) if isinstance(n, ast.Call) and any(e.kind in MUTATING for e in ctx.E.may(cal))]
-    ok = bool(nx) and all(must_precede(asragged, m, nx) for m in muts)
-    ctx.decide(ok, 'R-ORDER', 'D3', asragged, nx[0] if nx else None, 'first-item-before-first-effect',
-               'asraggedarray consumes and converts the first item before creating anything', detail='the directory is created before the first item is known to exist')
-    for n in nx:
-        guarded = len(n.args) > 1 or any(isinstance(p, ast.Try) and fld == 'body' and any('StopIteration' in norm(h.type) for h in p.handlers if h.type is not None)
-                                         for p, fld in enclosing(asragged.node, n))
-        ctx.decide(guarded, 'R-BELIEF', 'D3', asragged, n, 'next-guarded', 'an empty iterable does not leak StopIteration from asraggedarray',
-                   detail='unguarded next() on the caller\'s iterable')
-    # D4: same-path rejection before any effect
-    # path conditions: with the source an Array whose path equals the target path, no effect is reachable and
-    # ValueError is raised (any layout of the test: merged, nested, either polarity)
-    from ..pathcond import outcome_under
-    pth, src_ = asarray.params[0], asarray.params[1]
-    env = {f'isinstance({src_}, Array)': True, f'{pth} == {src_}.path': True, f'{src_}.path == {pth}': True,
-           f'{pth} == {src_}._path': True, f'{src_}._path == {pth}': True, f'{pth} != {src_}._path': False,
-           f'{src_}._path != {pth}': False,
-           f'{pth} != {src_}.path': False, f'{src_}.path != {pth}': False,
-           f'{pth}.samefile({src_}.path)': True, f'{src_}.path.samefile({pth})': True}
-    ft = _trunc.folder(env, asarray)
-    amuts = [n for n, cal in ctx.E.callees(asarray) if isinstance(n, ast.Call) and any(e.kind in MUTATING for e in ctx.E.may(cal))]
-    amuts += [e.node for e in ctx.E.primitives(asarray) if e.kind in MUTATING]
-    may = reach_under(asarray, ft)
-    ga = cfg_of(asarray)
-    normal, raised = outcome_under(asarray, ft)
-    ok = normal is False and 'ValueError' in raised and not any(ga.node_for(m) in may for m in amuts)
-    gates = []
-    ctx.decide(ok, 'R-DOM', 'D4', asarray, gates[0] if gates else None, 'same-path-rejected',
-               'asarray rejects path == source path (ValueError) before any effect', detail='a source could be overwritten by its own copy')
-    d6_archive_copy(ctx)           # D5
-    from .C13 import d2b_stale_metadata
-    d2b_stale_metadata(ctx, 'D4')   # a copy without metadata does not inherit the target path's old metadata.json
-    # the dtype imposed on later chunks keeps the byte order (shared with C01 D2)
-    dd = [v for v, st in defs_of(asarray.node, 'dtype')]
-    ok = any(isinstance(v, ast.Attribute) and v.attr == 'dtype' for v in dd) and \
-        not [v for v in dd if not isinstance(v, ast.Attribute) and ('.name' in norm(v) or 'np.dtype' in norm(v))]
-    ctx.decide(ok, 'R-FLOW', 'D1', asarray, None, 'imposed-dtype-keeps-byteorder',
-               'asarray imposes the first chunk\'s dtype object (byte order included) on all later chunks of a copy',
-               detail='dtype is rebuilt from the type name: multi-chunk copies of non-native byte order mix endianness')
-    for cls in (A, RA):
-        m = cls.methods.get('archive')
-        dd = ctx.repo.func('DataDir.archive')
-        calls = [n for n, cal in ctx.E.callees(m) if cal is dd and isinstance(n, ast.Call)] if m else []
-        ok = len(calls) == 1 and all(norm(get_arg(calls[0], None, k) or ast.Constant(0)) == k for k in ('filepath', 'compressiontype', 'overwrite'))
-        ctx.decide(ok, 'R-FLOW', 'D5', m or dd, calls[0] if calls else None, f'archive-forward::{cls.name}',
-                   f'{cls.name}.archive forwards filepath, compressiontype and overwrite to DataDir.archive', detail='arguments not forwarded')
+
+
+def _ragged_copy_direct(ctx, RA, g):
+    """RaggedArray.copy that does not go through asraggedarray: the two sub-arrays are copied as the Arrays they are.
+    Decided here: both sub-arrays are copied with Array.copy (values with the requested dtype), overwrite is forwarded,
+    and the metadata of the copy *replace* whatever the target has (handed to a creator / writer as a fresh dict, never
+    merged with MetaData.update).  The top-level descriptor of the copy is C05's clause (other-descriptor-writer), the
+    mode of the returned handle C11's (D6)."""
+    from .C17 import subarray_role
+    acopy = ctx.repo.func('Array.copy')
+    got = {}
+    for n, cal in ctx.E.callees(g):
+        if cal is acopy and isinstance(n, ast.Call) and isinstance(n.func, ast.Attribute):
+            role = subarray_role(ctx, n.func.value, g)
+            if role in ('VALUESDIR', 'INDICESDIR'):
+                got[role] = n
+    for role in ('VALUESDIR', 'INDICESDIR'):
+        n = got.get(role)
+        ctx.decide(n is not None, 'R-FLOW', 'D2', g, n, f'ragged-direct-copy::{role}',
+                   f'RaggedArray.copy copies the {role[:-3].lower()} sub-array with Array.copy',
+                   detail='neither delegated to asraggedarray nor copied as an Array')
+        if n is None:
+            continue
+        a = get_arg(n, None, 'overwrite')
+        ctx.decide(isinstance(a, ast.Name) and a.id == 'overwrite', 'R-FLOW', 'D2', g, n, f'ragged-direct-copy::{role}::overwrite',
+                   f'the {role[:-3].lower()} copy receives overwrite verbatim', detail=f'overwrite={norm(a) if a is not None else "<absent>"}')
+        if role == 'VALUESDIR':
+            a = get_arg(n, None, 'dtype')
+            ctx.decide(a is not None and 'dtype' in derived(g.node, a), 'R-FLOW', 'D2', g, n, 'ragged-direct-copy::dtype',
+                       'the values copy receives the requested dtype', detail=f'dtype={norm(a) if a is not None else "<absent>"}: '
+                       f'copy(dtype=X) keeps the source type')
+    # metadata
+    merges = [n for n in own_nodes(g.node) if isinstance(n, ast.Call) and isinstance(n.func, ast.Attribute) and
+              n.func.attr in ('update', '__setitem__', 'setdefault') and norm(n.func.value).endswith(('.metadata', '._metadata'))]
+    routes = [(n, cal) for n, cal in ctx.E.callees(g) if isinstance(n, ast.Call) and cal is not acopy and
+              'metadata' in cal.params + cal.kwonly and get_arg(n, None, 'metadata') is not None]
+    if merges:
+        ctx.bad('R-FLOW', 'D4', g, merges[0], 'ragged-direct-copy::metadata',
+                'the metadata of the copy replace whatever metadata the target path already has',
+                detail=f'`{norm(merges[0])[:60]}` merges the source metadata into the metadata.json that is already at the target '
+                       f'(overwrite=True on an existing array): keys of the old array survive, the copy does not have identical '
+                       f'metadata; with empty source metadata the old file stays as it is')
+    elif routes:
+        for n, cal in routes:
+            _fresh_metadata(ctx, g, n, 'D4')
+    else:
+        ctx.assume('R-FLOW', 'D4', g, None, 'ragged-direct-copy::metadata',
+                   'the metadata of the copy replace whatever metadata the target path already has',
+                   detail='no recognised route of the metadata into the copy')
 
 
 def _fresh_metadata(ctx, f, call, clause):
